@@ -39,7 +39,7 @@ class StdinWriter(Contract):
         I.c06 = self
         proc, out, inn, chunks = ST.make_process(I)
         tin = TrackingStdin()
-        self.stdin = E.new_env_object(I, tin, writes=V.VList([]), closed=V.FALSE)
+        self.stdin = E.new_env_object(I, tin, writes=V.VList([]), attempted=V.VList([]), closed=V.FALSE)
         I.set_attr(proc, "stdin", self.stdin, record=False)
         self.client = ST.make_client(I, process=proc)
         env = TrackingOutgoing()
